@@ -517,6 +517,7 @@ def scenario(rng, profile):
     R.inv_rp, R.endpoint_expect, R.raising_handlers = {}, {}, set()
     R.event_expect, R.inv_expect = None, None
     s.traceback_app = rng.random() < 0.3
+    R.ackf = profile in ("c11", "c04") and rng.random() < 0.4       # the broker announces acknowledged event delivery
     hids = {1: rng.random() < 0.4, 2: rng.random() < 0.7, 3: rng.random() < 0.4}      # which handlers ask for details
     for hid, wd in hids.items():
         R.handlers[hid] = R.make_handler(hid, wd)
@@ -812,7 +813,10 @@ def scenario(rng, profile):
                 R.reent = dict(p=p_, q=q_, n=0, done=False, snapshot=cur)
             etopic = rng.choice([None, None, "com.myapp.topic1.sub.x", "com.myapp.other"])     # pattern-based subscriptions: the router names the topic
             R.event_topic = etopic
-            rx(message.Event(sub, pubid, args=margs or None, kwargs=mkwargs or None, topic=etopic), dict(t="event", sub=sub, p=p_, q=q_))
+            # an event whose delivery the broker wants acknowledged (whether or not it announced the feature)
+            ack = p_ == 0 and rng.random() < 0.35
+            rx(message.Event(sub, pubid, args=margs or None, kwargs=mkwargs or None, topic=etopic, x_acknowledged_delivery=(True if ack else None)),
+               dict(t="event", sub=sub, p=p_, q=q_, ack=ack, bad=sorted(R.raising_handlers) if ack else []))
             R.event_topic = None
             R.reent = None
             R.event_expect = None
@@ -843,7 +847,7 @@ def scenario(rng, profile):
             rx(message.Goodbye(), dict(t="goodbye"))
         elif t == "welcome":
             R.user["welcome"] = rng.choice(["ok", "ok", "ok", "deny", "raise"])
-            rx(message.Welcome(1234, ROLES), dict(t="welcome"))
+            rx(message.Welcome(1234, ROLES_ACK if R.ackf else ROLES), dict(t="welcome", ackf=R.ackf))
         elif t == "abort":
             rx(message.Abort("wamp.error.no_such_realm"), dict(t="abort"))
         elif t == "challenge":
@@ -906,7 +910,7 @@ def scenario(rng, profile):
         rx(message.Challenge("wampcra", {"challenge": "x"}), dict(t="challenge"))
     if s.transport is not None and s.session_id is None and rng.random() < 0.9:
         R.user["welcome"] = rng.choice(["ok"] * 6 + ["deny", "raise"])
-        rx(message.Welcome(1234, ROLES), dict(t="welcome"))
+        rx(message.Welcome(1234, ROLES_ACK if R.ackf else ROLES), dict(t="welcome", ackf=R.ackf))
     if s.session_id is not None and profile == "c10":
         # a registration to invoke
         R.expect_sent = dict(uri="com.myapp.proc9")
@@ -1062,7 +1066,7 @@ def scenario(rng, profile):
         do_open()
         if rng.random() < 0.9:
             R.user["welcome"] = "ok"
-            rx(message.Welcome(4321, ROLES), dict(t="welcome"))
+            rx(message.Welcome(4321, ROLES_ACK if R.ackf else ROLES), dict(t="welcome", ackf=R.ackf))
         for _ in range(rng.randint(1, 6)):
             if R.lost_flag:
                 break
@@ -1175,12 +1179,14 @@ def idwrap_scenario(rng):
 
 
 ROLES = None
+ROLES_ACK = None
 
 
 def main():
-    global ROLES
+    global ROLES, ROLES_ACK
     from autobahn.wamp.role import RoleBrokerFeatures, RoleDealerFeatures
     ROLES = {"broker": RoleBrokerFeatures(), "dealer": RoleDealerFeatures()}
+    ROLES_ACK = {"broker": RoleBrokerFeatures(x_acknowledged_event_delivery=True), "dealer": RoleDealerFeatures()}
     inp = driver_in()
     rng = random.Random(int(os.environ.get("VERIF_SEED", "0")) * 7411 + inp.get("shard", 0) * 271 + 11)
     traces = []
